@@ -58,6 +58,8 @@ pub struct CrcCall {
 #[derive(Clone, Debug, Default)]
 pub struct CrcLog {
     pub calls: Vec<CrcCall>,
+    /// (position class * 256 + table index) pairs used by the reference computation
+    pub reach: std::collections::BTreeSet<u16>,
     /// when set, the result is XORed with this (simulates nothing by default; used only by selftests)
     pub n: u64,
 }
@@ -87,7 +89,32 @@ impl CrcCalculator for RecCrc {
         let mut l = self.log.borrow_mut();
         l.n += 1;
         if self.keep {
-            let expected = crcref().gse(total_length, protocol_type, label, pdu);
+            let cr = crcref();
+            let mut seen = [[false; 256]; 6];
+            let mut c = cr.raw_traced(0xFFFF_FFFF, &total_length.to_be_bytes(), 0, &mut seen);
+            c = cr.raw_traced(c, &protocol_type.to_be_bytes(), 1, &mut seen);
+            c = cr.raw_traced(c, label, 2, &mut seen);
+            let n = pdu.len();
+            if n > 0 {
+                c = cr.raw_traced(c, &pdu[..1], 3, &mut seen);
+                if n > 2 {
+                    // sample the middle: tracing every byte of large PDUs costs more than it tells
+                    let m = (n - 2).min(64);
+                    c = cr.raw_traced(c, &pdu[1..1 + m], 4, &mut seen);
+                    c = cr.raw(c, &pdu[1 + m..n - 1]);
+                }
+                if n > 1 {
+                    c = cr.raw_traced(c, &pdu[n - 1..], 5, &mut seen);
+                }
+            }
+            let expected = c;
+            for (cl, row) in seen.iter().enumerate() {
+                for (ix, b) in row.iter().enumerate() {
+                    if *b {
+                        l.reach.insert((cl * 256 + ix) as u16);
+                    }
+                }
+            }
             l.calls.push(CrcCall {
                 pdu_len: pdu.len(),
                 ptype: protocol_type,
